@@ -13,7 +13,7 @@
    PARTIAL: chemistry (sanitisation) is RDKit's and is checked on the implementation only; that the model IS the code is the
    correspondence check (nodes, instances, bonds with their kind, the sequence of decisions, on every run). *)
 From Coq Require Import List ZArith QArith Bool Arith Lia.
-From GBS Require Import Model.PyStr Model.Num Model.Bond Model.Select Model.Gen Model.AGen Proofs.GenP Proofs.AGenP Proofs.DfsP Proofs.AGenW.
+From GBS Require Import Model.PyStr Model.Num Model.Bond Model.Select Model.Gen Model.AGen Proofs.GenP Proofs.AGenP Proofs.DfsP Proofs.AGenW Src.SrcAGen Proofs.AGenSrcP.
 Import ListNotations.
 Open Scope nat_scope.
 
@@ -94,6 +94,25 @@ Definition ex_graph : sgraph :=
                    {| sn_mass := 12; sn_key := (0, 0)%Q; sn_T := []; sn_E := []; sn_S := []; sn_adj := [2; 4] |};
                    {| sn_mass := 16; sn_key := (0, 0)%Q; sn_T := []; sn_E := []; sn_S := []; sn_adj := [3] |} ];
      sg_static := [(0, 1, 1%Z); (2, 3, 1%Z); (3, 4, 1%Z)] |}.
+(* tie T: the static completion, the choice of the next stochastic node, the termination pass and the growth loop written over the decisions
+   REGENERATED from graph_generate.py (Src/SrcAGen.v; the statement skeletons of all fifteen functions / methods and the remaining decisions
+   are checked against harness/skeletons/graph_generate*.txt) are, for every state of the run monad, the model of the theorems above *)
+Theorem C18_growth_loop_is_source : forall fuel G st s, stoch_loop_src fuel G st s = stoch_loop fuel G st s.
+Proof. exact stoch_loop_is_source. Qed.
+Print Assumptions C18_growth_loop_is_source.
+
+Theorem C18_generation_is_source : forall G start pk tg, run_agen_src G start pk tg = run_agen G start pk tg.
+Proof. exact run_agen_is_source. Qed.
+Print Assumptions C18_generation_is_source.
+
+Theorem C18_termination_pass_is_source : forall fuel G st ex s, terminate_src fuel G st ex s = terminate fuel G st ex s.
+Proof. exact terminate_is_source. Qed.
+Print Assumptions C18_termination_pass_is_source.
+
+Theorem C18_static_completion_is_source : forall G st cur, fill_static_src G st cur = fill_static G st cur.
+Proof. exact fill_static_is_source. Qed.
+Print Assumptions C18_static_completion_is_source.
+
 Example C18_example :
   match run_agen ex_graph 0 [0; 0; 0; 0; 0; 0; 0; 0; 0] [100%Q] with
   | Done st rs => map g_sn (a_nodes st) = [0; 1; 0; 1; 0; 1; 2; 3; 4] /\ map g_inst (a_nodes st) = [0; 0; 2; 2; 4; 4; 6; 6; 6] /\
